@@ -541,6 +541,13 @@ func (ex *Exec) binop(op token.Token, t types.Type, x, y Value) Value {
 		}
 		return ex.intBinop(op, t, xv, yv)
 	case string:
+		if ss, isSym := y.(SymStr); isSym && (op == token.EQL || op == token.NEQ) {
+			r := ex.strEq(ss, xv)
+			if op == token.NEQ {
+				r = ex.C.BNot(r)
+			}
+			return r
+		}
 		ys, ok := y.(string)
 		if !ok {
 			ex.unsupported("string op with symbolic string")
@@ -560,6 +567,14 @@ func (ex *Exec) binop(op token.Token, t types.Type, x, y Value) Value {
 			return ex.C.Bool(xv <= ys)
 		case token.GEQ:
 			return ex.C.Bool(xv >= ys)
+		}
+	case SymStr:
+		if op == token.EQL || op == token.NEQ {
+			r := ex.strEq(xv, y)
+			if op == token.NEQ {
+				r = ex.C.BNot(r)
+			}
+			return r
 		}
 	case Float:
 		yf := y.(Float)
@@ -1243,4 +1258,33 @@ func (ex *Exec) growCap(newLen *term.T) *term.T {
 	ex.S.Declare(v)
 	ex.assertFact(ex.C.BAnd(ex.C.Sle(newLen, v), ex.C.Sle(v, ex.constInt(maxAlloc))))
 	return v
+}
+
+// strEq compares a byte-store string with another string (lengths must be concrete).
+func (ex *Exec) strEq(a SymStr, b Value) *term.T {
+	n := ex.concreteInt(a.Len, "string length")
+	switch bv := b.(type) {
+	case string:
+		if int64(len(bv)) != n {
+			return ex.C.False
+		}
+		r := ex.C.True
+		for i := int64(0); i < n; i++ {
+			r = ex.C.BAnd(r, ex.C.Eq(ex.C.Select(a.A, ex.C.Add(a.Off, ex.constInt(i))), ex.C.Const(8, uint64(bv[i]))))
+		}
+		return r
+	case SymStr:
+		m := ex.concreteInt(bv.Len, "string length")
+		if m != n {
+			return ex.C.False
+		}
+		r := ex.C.True
+		for i := int64(0); i < n; i++ {
+			k := ex.constInt(i)
+			r = ex.C.BAnd(r, ex.C.Eq(ex.C.Select(a.A, ex.C.Add(a.Off, k)), ex.C.Select(bv.A, ex.C.Add(bv.Off, k))))
+		}
+		return r
+	}
+	ex.unsupported(fmt.Sprintf("string comparison with %T", b))
+	return nil
 }
